@@ -1,5 +1,7 @@
 """CFG queries shared by the rule engines: guards (switch edges that dominate a point),
 natural loops, 'every path passes', 'no call between'."""
+import re
+
 from .trace import Tracer, canon, strip, walk
 from .facts import callee_fn
 
@@ -207,6 +209,9 @@ def normalized(g):
             cond, value, changed = c[2], (not value), True
         elif c[0] == "binop" and c[1] in _FLIP:
             cond, value, changed = ("binop", _FLIP[c[1]], c[2], c[3]), (not value), True
+        elif c[0] == "call" and isinstance(c[1], str) and re.search(r"PartialEq(<[^>]*>)?>?::ne$", c[1]):
+            # `a != b` through a PartialEq impl: ne(a, b) = v is eq(a, b) = !v
+            cond, value, changed = (c[0], c[1][:-2] + "eq") + tuple(c[2:]), (not value), True
     return cond, value
 
 
